@@ -8,7 +8,7 @@ from harness.descr import data_coq, ty_coq, value_coq
 from harness.schema_coq import doc_coq, Unsupported
 
 NEEDED = ["Schema/Json.v", "Schema/Build.v", "Schema/Run.v", "Schema/Proofs.v", "Ser/Model.v", "Ser/Spec.v",
-          "Ser/RoundTripInd.v", "Schema/AgreeProofs.v", "Schema/SerAgree.v", "Schema/BuildSer.v", "Ser/ImageInv.v", "Schema/SerClassProofs.v", "Schema/SerRequired.v"]
+          "Ser/RoundTripInd.v", "Schema/AgreeProofs.v", "Schema/SerAgree.v", "Schema/BuildSer.v", "Ser/ImageInv.v", "Schema/SerClassProofs.v", "Schema/SerRequired.v", "Schema/ImageInvGen.v", "Schema/SerClassGen.v"]
 HEADER_EXTRA = "From AV Require Import Schema.Json Schema.Build Schema.Run.\n"
 
 
@@ -240,6 +240,13 @@ def run(tier):
     for k, e in errs:
         R.broken.append(f"coq evaluation failed (C07_hyps_classes shard {k}): {e[-300:]}")
     R.hist["cases_within_the_theorem_with_classes"] = len(ccases) - len(outside5)
+    # ... and of C07_output_validates_under_every_serialization_option (skip options, exclude_* settings, methods; inline)
+    outside7, errs = core.run_coq_shards(
+        "C07_hyps_all_options", header + "From AV Require Import Ser.Spec Ser.RoundTrip Ser.RoundTripInd Schema.BuildSer Schema.SerClassProofs Schema.ImageInvGen Schema.SerClassGen.\n",
+        ccases, "(fun c : " + T5 + " => let '(u, so, t, v) := c in gen_hyps u so t 40 v)", item_type=T5, shard=300)
+    for k, e in errs:
+        R.broken.append(f"coq evaluation failed (C07_hyps_all_options shard {k}): {e[-300:]}")
+    R.hist["cases_within_the_theorem_every_option"] = len(ccases) - len(outside7)
     # objects within the hypotheses of C07_required_keys_always_emitted_and_emitted_keys_declared (every class: skip options,
     # methods, TypedDicts, exclude_* settings), with the conclusion re-evaluated on the model
     chk = ("(fun c : " + T5 + " => let '(u, so, t, v) := c in match t with TObj cid => "
